@@ -22,6 +22,14 @@ impl Elem for i32 {
         a == b
     }
 }
+impl Elem for f32 {
+    fn k(&self) -> String {
+        format!("{:08x}", self.to_bits())
+    }
+    fn last_eq_ref(a: &f32, b: &f32) -> bool {
+        a == b
+    }
+}
 fn kind(t: &Tree) -> u8 {
     match t {
         Tree::L(_) => 0,
@@ -399,6 +407,12 @@ pub fn run(ctx: &mut Ctx) {
         "int" => {
             let (vals, max) = if ctx.tier_thorough { (vec![1, 2], 13) } else { (vec![1, 2], 10) };
             bfs::<i32>(ctx, "i32", vals, max);
+        }
+        "float" => {
+            // values that print alike to one decimal / differ by one ulp; NaN (never equal to itself by ==, equal by text)
+            let vals: Vec<f32> = vec![2.5, 2.54, f32::from_bits(2.5f32.to_bits() + 1), f32::NAN];
+            let (vals, max) = if ctx.tier_thorough { (vals, 5) } else { (vals[..3].to_vec(), 4) };
+            bfs::<f32>(ctx, "f32", vals, max);
         }
         "item" => {
             let vals: Vec<Item> = vec![
